@@ -128,42 +128,50 @@ fn as_entry(id: u32, first: bool, last: bool) -> AsEntry {
     }
 }
 
+/// start of the body region inside header_and_body (canonical framing: 0x0a len header 0x12 len body).
+/// If the library under test frames differently the regions are an arbitrary but total partition.
 fn split_of(hb: &[u8]) -> usize {
-    let m = cr::HeaderAndBodyInternal::decode(hb).expect("own encoding decodes");
-    let hl = m.header.len();
-    let s = 1 + prost::length_delimiter_len(hl) + hl;
-    assert!(s < hb.len() && hb[0] == 0x0a && hb[s] == 0x12, "canonical header-and-body framing");
-    s
+    if let Ok(m) = cr::HeaderAndBodyInternal::decode(hb) {
+        let hl = m.header.len();
+        let s = 1 + prost::length_delimiter_len(hl) + hl;
+        if s < hb.len() && hb[0] == 0x0a && hb[s] == 0x12 {
+            return s;
+        }
+    }
+    hb.len() / 2
 }
 
-fn to_msg(seg: &SignedPathSegment, ids: &[u32]) -> Msg {
-    let rpc = seg.clone().into_rpc();
-    let es = rpc
-        .as_entries
-        .into_iter()
-        .zip(ids.iter())
-        .map(|(e, id)| {
-            let s = e.signed.expect("signed");
-            let split = split_of(&s.header_and_body);
-            REntry { hb: s.header_and_body, sig: s.signature, split, id: *id }
-        })
-        .collect();
-    Msg { info: rpc.segment_info, es }
+fn to_msg(seg: &SignedPathSegment, ids: &[u32]) -> Result<Msg, String> {
+    let rpc = catch(|| seg.clone().into_rpc()).map_err(|p| format!("into_rpc panicked: {p}"))?;
+    if rpc.as_entries.len() != ids.len() {
+        return Err(format!("into_rpc produced {} entries for {} signed entries", rpc.as_entries.len(), ids.len()));
+    }
+    let mut es = vec![];
+    for (e, id) in rpc.as_entries.into_iter().zip(ids.iter()) {
+        let s = e.signed.ok_or("into_rpc produced an entry without signed message")?;
+        let split = split_of(&s.header_and_body);
+        es.push(REntry { hb: s.header_and_body, sig: s.signature, split, id: *id });
+    }
+    Ok(Msg { info: rpc.segment_info, es })
 }
 
-fn build_segment(ts: u32, segid: u16, ids: &[u32], keys: &HashMap<u32, SigningKey>, sig_ts: u32) -> SignedPathSegment {
+fn build_segment(ts: u32, segid: u16, ids: &[u32], keys: &HashMap<u32, SigningKey>, sig_ts: u32) -> Result<SignedPathSegment, String> {
     let mut seg = SignedPathSegment::empty(ts, segid);
     for (i, id) in ids.iter().enumerate() {
         let e = as_entry(*id, i == 0, false);
         let mac_key = [*id as u8; 16];
-        seg.add_entry(e, &keys[id], Some(kid_of(*id)), &mac_key, sig_ts)
-            .expect("signing works");
+        match catch(|| seg.add_entry(e, &keys[id], Some(kid_of(*id)), &mac_key, sig_ts)) {
+            Err(p) => return Err(format!("add_entry panicked: {p}")),
+            Ok(Err(e)) => return Err(format!("add_entry failed: {e}")),
+            Ok(Ok(())) => {}
+        }
     }
-    seg
+    Ok(seg)
 }
 
 impl World {
-    fn new(n0: usize) -> World {
+    /// Honest construction with the library under test; an Err is an observation about that library.
+    fn new(n0: usize) -> Result<World, String> {
         let mut keys = HashMap::new();
         let mut vks = HashMap::new();
         let mut kids = HashMap::new();
@@ -177,23 +185,26 @@ impl World {
             kids.insert((kid.isd_as, kid.subject_key_id), *id);
         }
         let wrong = *det_key(2, 999).verifying_key();
-        let base_seg = build_segment(1_700_000_000, 0x1234, &base_ids, &keys, 1_700_000_100);
-        let foreign_seg = build_segment(1_700_000_777, 0x4321, &foreign_ids, &keys, 1_700_000_800);
+        let base_seg = build_segment(1_700_000_000, 0x1234, &base_ids, &keys, 1_700_000_100)?;
+        let foreign_seg = build_segment(1_700_000_777, 0x4321, &foreign_ids, &keys, 1_700_000_800)?;
         let mut ext = base_seg.clone();
         let mut ext_ids = base_ids.clone();
         ext_ids.push(30);
-        ext.add_entry(as_entry(30, false, false), &keys[&30], Some(kid_of(30)), &[30u8; 16], 1_700_000_100)
-            .expect("signing works");
-        let legit = to_msg(&ext, &ext_ids).es.pop().unwrap();
-        World {
+        match catch(|| ext.add_entry(as_entry(30, false, false), &keys[&30], Some(kid_of(30)), &[30u8; 16], 1_700_000_100)) {
+            Err(p) => return Err(format!("add_entry panicked: {p}")),
+            Ok(Err(e)) => return Err(format!("add_entry failed: {e}")),
+            Ok(Ok(())) => {}
+        }
+        let legit = to_msg(&ext, &ext_ids)?.es.pop().ok_or("no entries")?;
+        Ok(World {
             n0,
             vks,
             kids,
             wrong,
-            base: to_msg(&base_seg, &base_ids),
-            foreign: to_msg(&foreign_seg, &foreign_ids),
+            base: to_msg(&base_seg, &base_ids)?,
+            foreign: to_msg(&foreign_seg, &foreign_ids)?,
             legit,
-        }
+        })
     }
 }
 
@@ -503,14 +514,22 @@ fn parse_expect(v: &Value) -> Vec<(bool, String)> {
 fn replay(inp: &str, outp: &str) {
     let lines = vh_core::read_ndjson(inp);
     let seed = vh_core::seed_from_env();
-    let mut worlds: HashMap<usize, World> = HashMap::new();
+    let mut worlds: HashMap<usize, Result<World, String>> = HashMap::new();
     let mut w = NdjsonWriter::create(outp);
     for line in lines.iter() {
         if line.get("ev").is_some() {
             continue;
         }
         let n = line["n"].as_u64().unwrap() as usize;
-        let world = worlds.entry(n).or_insert_with(|| World::new(n));
+        let world = match worlds.entry(n).or_insert_with(|| World::new(n)) {
+            Ok(w) => &*w,
+            Err(e) => {
+                // the library under test cannot even build / export the honest segment
+                w.write(&json!({"conv": "nosign", "msg": e, "entries": [], "conf": false, "rejected": false, "rt": "na",
+                    "pv": [{"key": "RejectsValid:honest-construction", "what": format!("the honest segment of {n} entries cannot be signed and exported: {e}")}]}));
+                continue;
+            }
+        };
         let mut t = Tampered { m: world.base.clone(), ov: HashMap::new() };
         let hist: Vec<Value> = line["h"].as_array().cloned().unwrap_or_default();
         let mut ops = vec![];
@@ -565,7 +584,7 @@ fn flips(inp: &str, outp: &str) {
     let thorough = vh_core::tier_is_thorough();
     let seed = vh_core::seed_from_env();
     let mut rng = Rng::new(seed ^ 0xf11b5);
-    let mut worlds: HashMap<usize, World> = HashMap::new();
+    let mut worlds: HashMap<usize, Result<World, String>> = HashMap::new();
     let mut total = 0u64;
     let mut verifies = 0u64;
     let mut rejected = 0u64;
@@ -581,7 +600,16 @@ fn flips(inp: &str, outp: &str) {
         let st = &line["h"][0];
         let op = st["op"].as_str().unwrap().to_string();
         let a = st["a"].as_u64().unwrap() as usize;
-        let world = worlds.entry(n).or_insert_with(|| World::new(n));
+        let world = match worlds.entry(n).or_insert_with(|| World::new(n)) {
+            Ok(w) => &*w,
+            Err(e) => {
+                if pvs.len() < 50 {
+                    pvs.push(json!({"key": "RejectsValid:honest-construction", "what": format!("the honest segment of {n} entries cannot be signed and exported: {e}"),
+                        "n": n, "op": op, "a": a, "bit": 0, "real": {"conv": "nosign"}}));
+                }
+                continue;
+            }
+        };
         let expect = parse_expect(&line["e"]);
         let nbits = match op.as_str() {
             "FlipInfo" => world.base.info.len() * 8,
@@ -734,22 +762,42 @@ fn path_segment_msg(info: &str, entries: &str) -> cp::PathSegment {
     }
 }
 
-/// A real data-plane path and its interfaces, produced by the combinator from an honest up segment.
-fn sample_paths() -> Vec<ScionPath> {
-    let mut seg = UnsignedPathSegment::new(1_700_000_000, 7, vec![]);
-    for (i, id) in [1u32, 2, 3, 4].iter().enumerate() {
-        seg.add_unsigned_entry(as_entry(*id, i == 0, i == 3), &[*id as u8; 16]);
+/// Base RPC paths (raw data-plane path + interface list) for the Path cells: produced by the combinator
+/// from honest segments ("paths from the C01 instances"); a hand-encoded two-hop path is the fallback
+/// if the combinator under test does not deliver.
+fn sample_paths() -> Vec<(dm::Path, IsdAsn, IsdAsn)> {
+    let from_combinator = catch(|| {
+        let mut seg = UnsignedPathSegment::new(1_700_000_000, 7, vec![]);
+        for (i, id) in [1u32, 2, 3, 4].iter().enumerate() {
+            seg.add_unsigned_entry(as_entry(*id, i == 0, i == 3), &[*id as u8; 16]);
+        }
+        let mut core = UnsignedPathSegment::new(1_700_000_050, 9, vec![]);
+        for (i, id) in [5u32, 1].iter().enumerate() {
+            let mut e = as_entry(*id, i == 0, i == 1);
+            e.peer_entries.clear();
+            core.add_unsigned_entry(e, &[*id as u8; 16]);
+        }
+        let mut out = combine(ia(4), ia(1), vec![], vec![seg.clone()]);
+        out.extend(combine(ia(4), ia(2), vec![], vec![seg.clone()]));
+        out.extend(combine(ia(4), ia(5), vec![core], vec![seg]));
+        out.iter().map(|p| (p.to_rpc(), p.src_ia(), p.dst_ia())).collect::<Vec<_>>()
+    })
+    .unwrap_or_default();
+    let mut v: Vec<_> = from_combinator.into_iter().filter(|(p, _, _)| !p.raw.is_empty() && p.interfaces.len() >= 2 && p.interfaces.len() % 2 == 0).collect();
+    if v.is_empty() {
+        // PathMeta (seg0 = 2 hop fields), one info field, two hop fields
+        let mut raw = vec![0x00, 0x00, 0x20, 0x00];
+        raw.extend_from_slice(&[0x00, 0x00, 0x12, 0x34, 0x65, 0x53, 0xf1, 0x00]);
+        raw.extend_from_slice(&[0x00, 63, 0x00, 0x05, 0x00, 0x00, 1, 2, 3, 4, 5, 6]);
+        raw.extend_from_slice(&[0x00, 63, 0x00, 0x00, 0x00, 0x07, 6, 5, 4, 3, 2, 1]);
+        let p = dm::Path {
+            raw,
+            interfaces: vec![dm::PathInterface { isd_as: ia(4).to_u64(), id: 5 }, dm::PathInterface { isd_as: ia(1).to_u64(), id: 7 }],
+            ..Default::default()
+        };
+        v.push((p, ia(4), ia(1)));
     }
-    let mut core = UnsignedPathSegment::new(1_700_000_050, 9, vec![]);
-    for (i, id) in [5u32, 1].iter().enumerate() {
-        let mut e = as_entry(*id, i == 0, i == 1);
-        e.peer_entries.clear();
-        core.add_unsigned_entry(e, &[*id as u8; 16]);
-    }
-    let mut out = combine(ia(4), ia(1), vec![], vec![seg.clone()]);
-    out.extend(combine(ia(4), ia(2), vec![], vec![seg.clone()]));
-    out.extend(combine(ia(4), ia(5), vec![core], vec![seg]));
-    out
+    v
 }
 
 /// Outcome of one conversion: "ok"/"err"/"panic", round trip of the converted value, detail
@@ -779,8 +827,8 @@ fn run_conv<V: PartialEq + Clone, M: Clone>(m: M, from: impl Fn(M) -> Result<V, 
     }
 }
 
-fn path_cell(f: &[String], sample: &ScionPath) -> (dm::Path, IsdAsn, IsdAsn) {
-    let base = sample.to_rpc();
+fn path_cell(f: &[String], sample: &(dm::Path, IsdAsn, IsdAsn)) -> (dm::Path, IsdAsn, IsdAsn) {
+    let base = sample.0.clone();
     let n = base.interfaces.len();
     let mut p = dm::Path { raw: base.raw.clone(), interfaces: base.interfaces.clone(), mtu: 1400, ..Default::default() };
     match f[0].as_str() {
@@ -790,9 +838,9 @@ fn path_cell(f: &[String], sample: &ScionPath) -> (dm::Path, IsdAsn, IsdAsn) {
         _ => {}
     }
     let (src, dst) = match f[1].as_str() {
-        "same" => (sample.src_ia(), sample.src_ia()),
+        "same" => (sample.1, sample.1),
         "wild" => (IsdAsn::from_u64(0), IsdAsn::from_u64(0)),
-        _ => (sample.src_ia(), sample.dst_ia()),
+        _ => (sample.1, sample.2),
     };
     p.interface = match f[2].as_str() {
         "none" => None,
@@ -916,7 +964,7 @@ fn path_diff(a: &ScionPath, b: &ScionPath) -> String {
     }
 }
 
-fn run_cell(k: &str, f: &[String], sample: &ScionPath) -> RpcOut {
+fn run_cell(k: &str, f: &[String], sample: &(dm::Path, IsdAsn, IsdAsn)) -> RpcOut {
     let es = |e: sciparse::rpc::FromRpcError| e.message.to_string();
     match k {
         "HopField" => {
@@ -983,7 +1031,6 @@ fn run_cell(k: &str, f: &[String], sample: &ScionPath) -> RpcOut {
 fn rpc(inp: &str, outp: &str) {
     let lines = vh_core::read_ndjson(inp);
     let samples = sample_paths();
-    assert!(samples.len() >= 3, "combinator produced the sample paths");
     let mut w = NdjsonWriter::create(outp);
     for (i, line) in lines.iter().enumerate() {
         let k = line["k"].as_str().unwrap();
@@ -1003,7 +1050,7 @@ fn record(events: &str, rpcev: &str, results: &str) {
     let runs = if thorough { 1500 } else { 250 };
     let mut w = NdjsonWriter::create(events);
     w.write(&json!({"ev": "meta", "spec": "SignedSegment", "seed": seed, "nmax": 7}));
-    let mut worlds: HashMap<usize, World> = HashMap::new();
+    let mut worlds: HashMap<usize, Result<World, String>> = HashMap::new();
     let mut pvs: Vec<Value> = vec![];
     let mut n_events = 0u64;
     let mut n_validations = 0u64;
@@ -1012,7 +1059,15 @@ fn record(events: &str, rpcev: &str, results: &str) {
     let names = ["FlipBody", "FlipHdr", "FlipSig", "FlipInfo", "Swap", "Truncate", "Remove", "InsertCopy", "ExtendForeign", "ExtendLegit", "SubstKey", "NoKey"];
     for run in 0..runs {
         let n0 = rng.range(1, 7) as usize;
-        let world = worlds.entry(n0).or_insert_with(|| World::new(n0));
+        let world = match worlds.entry(n0).or_insert_with(|| World::new(n0)) {
+            Ok(w) => &*w,
+            Err(e) => {
+                if pvs.len() < 20 {
+                    pvs.push(json!({"key": "RejectsValid:honest-construction", "what": format!("the honest segment of {n0} entries cannot be signed and exported: {e}"), "run": run}));
+                }
+                continue;
+            }
+        };
         let mut t = Tampered { m: world.base.clone(), ov: HashMap::new() };
         w.write(&json!({"ev": "reset", "n": n0, "run": run}));
         n_events += 1;
